@@ -38,8 +38,20 @@ b, h = load(w + '/base.xml'), load(w + '/head.xml')
 reg = sorted(k for k in b if b[k] == 'pass' and h.get(k) != 'pass')
 print('tests run: base %d, head %d; passing: base %d, head %d' % (len(b), len(h), sum(v == 'pass' for v in b.values()), sum(v == 'pass' for v in h.values())))
 print('now passing:', sorted(k for k in b if b[k] == 'fail' and h.get(k) == 'pass'))
-print('REGRESSIONS:', reg)
-sys.exit(1 if reg else 0)
+# order-dependent tests (module-level state, the xdist distribution differs between the two runs) are re-run alone on the head tree
+import os, subprocess
+real = []
+for k in reg:
+  mod, rest = k.split('::', 1)
+  parts = mod.split('.')
+  target = '/'.join(parts[:-1]) + '.py::' + parts[-1] + '::' + rest
+  env = dict(os.environ, PYTHONPATH=w + ':' + w + '/head', JAX_PLATFORMS='cpu')
+  r = subprocess.run(['/venv/bin/python', '-m', 'pytest', '-q', '-p', 'shimplug', '-p', 'no:cacheprovider', target], cwd=w + '/head', env=env, capture_output=True, text=True)
+  if r.returncode != 0:
+    real.append(k)
+print('passed before but not now in the parallel run:', reg)
+print('REGRESSIONS (still failing when run alone on the head tree):', real)
+sys.exit(1 if real else 0)
 PY
 rc=$?
 git -C /repo worktree remove --force $work/base; git -C /repo worktree remove --force $work/head
